@@ -49,6 +49,7 @@ func c12GenHooks(t *rapid.T) []world.HookSpec {
 			{"hook-succeeded", "hook-failed"}, {"before-hook-creation", "hook-succeeded"}, {"before-hook-creation", "hook-failed"},
 			{"before-hook-creation", "hook-succeeded", "hook-failed"},
 		}).Draw(t, "policies")
+		h.Spaced = len(h.Policies) > 0 && rapid.IntRange(0, 3).Draw(t, "policiesWrittenWithBlanks") == 0
 		hs = append(hs, h)
 	}
 	return hs
